@@ -3,13 +3,18 @@
 EXTENDS BlocPlugin, Json
 
 CtorText(m, form) == IF form = "default" THEN m \o "()" ELSE IF m = "csv" THEN "csv(\";\")" ELSE IF m = "utf8" THEN "utf8(\"ab\")" ELSE m \o "()"
-StepOf(h) ==
+\* the path of an import written as a literal, as a call, as an expression that starts with a name
+PathText(m, f) == IF f = "call" THEN "import str(\"@MOD:" \o m \o "@\");"
+                  ELSE IF f = "expr" THEN "PP = \"@MOD:" \o m \o "@\"; import PP + \"\";"
+                  ELSE "import \"@MOD:" \o m \o "@\";"
+StepOfF(h, f) ==
   CASE h.a = "unban" -> <<[op |-> "unban", m |-> h.m, act |-> h]>>
     [] h.a = "clear" -> <<[op |-> "clearperm", act |-> h]>>
+    [] h.a = "deinit" -> <<[op |-> "deinit", act |-> h]>>
     [] h.a = "settrust" -> <<[op |-> "settrust", ctx |-> h.c, on |-> h.on, act |-> h]>>
     [] h.a = "clone" -> <<[op |-> "clone", ctx |-> h.c, from |-> h.from, act |-> h]>>
     [] h.a = "import" -> <<[op |-> "exec", ctx |-> h.c, text |-> "import " \o h.m \o ";", act |-> h], [op |-> "dump", ctx |-> h.c]>>
-    [] h.a = "importpath" -> <<[op |-> "exec", ctx |-> h.c, text |-> "import \"@MOD:" \o h.m \o "@\";", act |-> h], [op |-> "dump", ctx |-> h.c]>>
+    [] h.a = "importpath" -> <<[op |-> "exec", ctx |-> h.c, text |-> PathText(h.m, f), act |-> h], [op |-> "dump", ctx |-> h.c]>>
     [] h.a = "include" -> <<[op |-> "exec", ctx |-> h.c, text |-> "include \"@INC@\";", act |-> h], [op |-> "dump", ctx |-> h.c]>>
     [] h.a = "decl" -> <<[op |-> "exec", ctx |-> h.c, text |-> "D" \o h.m \o ":" \o h.m \o ";", act |-> h], [op |-> "dump", ctx |-> h.c]>>
     [] h.a = "ctor" ->
@@ -17,9 +22,13 @@ StepOf(h) ==
          THEN <<[op |-> "exec", ctx |-> h.c, text |-> "O" \o h.m \o " = " \o CtorText(h.m, h.form) \o ";", act |-> h], [op |-> "dump", ctx |-> h.c]>>
          ELSE <<[op |-> "exec", ctx |-> h.c, text |-> "function MK" \o h.m \o "() return object is begin return " \o CtorText(h.m, h.form) \o "; end;\nP" \o h.m \o " = MK" \o h.m \o "();", act |-> h],
                 [op |-> "dump", ctx |-> h.c]>>
-RECURSIVE StepsOf(_)
-StepsOf(hs) == IF hs = <<>> THEN <<>> ELSE StepOf(Head(hs)) \o StepsOf(Tail(hs))
-Scenario == [prop |-> "C16", key |-> "hist",
-             steps |-> <<[op |-> "new", ctx |-> 0, trusted |-> TRUE], [op |-> "new", ctx |-> 1, trusted |-> FALSE]>> \o StepsOf(hist)]
-Emit == Len(hist) < MaxLen + Len(Prefix) \/ PrintT("@@S " \o ToJson(Scenario))
+RECURSIVE StepsOf(_, _)
+StepsOf(hs, f) == IF hs = <<>> THEN <<>> ELSE StepOfF(Head(hs), f) \o StepsOf(Tail(hs), f)
+Scenario(f) == [prop |-> "C16", key |-> "hist",
+                steps |-> <<[op |-> "new", ctx |-> 0, trusted |-> TRUE], [op |-> "new", ctx |-> 1, trusted |-> FALSE]>> \o StepsOf(hist, f)]
+\* the other spellings only where the specification refuses every import by path of the history (an untrusted context): they must be
+\* refused as well (the call spelling is no path at all for the grammar: the word is taken for a module name)
+HasPath == (\E j \in DOMAIN hist : hist[j].a = "importpath") /\ (\A j \in DOMAIN hist : hist[j].a = "importpath" => ~hist[j].ok)
+Emit == Len(hist) < MaxLen + Len(Prefix) \/ (PrintT("@@S " \o ToJson(Scenario("lit")))
+                                              /\ (~HasPath \/ (PrintT("@@S " \o ToJson(Scenario("call"))) /\ PrintT("@@S " \o ToJson(Scenario("expr"))))))
 =============================================================================
